@@ -10,7 +10,14 @@ fuzz_target!(|data: &[u8]| {
         return;
     }
     let cx = ctx();
-    match data[0] % 3 {
+    // RQV_FUZZ_ONLY=C07|C10|C18 restricts the target to one property's generator and oracle
+    let sel = match std::env::var("RQV_FUZZ_ONLY").ok().as_deref() {
+        Some("C07") => 0,
+        Some("C10") => 1,
+        Some("C18") => 2,
+        _ => data[0] % 3,
+    };
+    match sel {
         0 => {
             if let Some(c) = case_from_bytes(&c07::strategy(&cx, 12), &data[1..]) {
                 run_case("C07", "calls", &c, c07::check, true);
